@@ -39,15 +39,15 @@ SPEC = {
              "0.3-0.4 x timeout each; a mix of all of these. 1-2 invocations by 1-2 instances, one invocation is planned to take at most "
              "3.5 s; cases of a process run concurrently, each against a recording server of its own. Non-trivial = some call starts "
              "after more than `timeout` has (nominally) passed since the start of its invocation."),
-    "floors": {"TestGRPCScenarioPaced/call_starts_after_timeout_has_passed_since_scenario_start": 0.6,
+    "floors": {"TestGRPCScenarioPaced/call_starts_after_timeout_has_passed_since_scenario_start": 0.44,
                "TestGRPCScenarioPaced/beyond_timeout_by_sleep_steps": 0.2, "TestGRPCScenarioPaced/beyond_timeout_by_per_call_sleep": 0.08,
-               "TestGRPCScenarioPaced/beyond_timeout_by_slow_answers_only": 0.08, "TestGRPCScenarioPaced/call_starts_late_within_timeout": 0.25,
+               "TestGRPCScenarioPaced/beyond_timeout_by_slow_answers_only": 1, "TestGRPCScenarioPaced/call_starts_late_within_timeout": 0.19,
                "TestGRPCJSON/reflect_port": 0.27, "TestGRPCJSON/reflect_port_client_per_instance": 0.12,
-               "TestGRPCJSON/reflect_port_shared_client_all_clients_used": 0.1, "TestGRPCJSON/shared_client_default_client_number": 0.07,
-               "TestGRPCJSON/shared_clients_ge_2_all_used": 0.085,
+               "TestGRPCJSON/reflect_port_shared_client_all_clients_used": 0.1, "TestGRPCJSON/shared_client_default_client_number": 0.047,
+               "TestGRPCJSON/shared_clients_ge_2_all_used": 0.061,
                "TestGRPCScenario/fixed_payload_templated_metadata": 0.25,
                "TestGRPCScenario/fixed_payload_per_invocation_metadata_ge_2_invocations": 0.18,
-               "TestGRPCScenario/metadata_with_template_function": 0.4, "TestGRPCScenario/metadata_with_random_function": 0.33,
+               "TestGRPCScenario/metadata_with_template_function": 0.32, "TestGRPCScenario/metadata_with_random_function": 0.33,
                "TestGRPCScenario/reflect_port": 0.14,
                "TestGRPCScenario/metadata_per_invocation_value": 0.4, "TestGRPCScenario/metadata_from_earlier_response": 0.25,
                "TestGRPCScenario/per_invocation_metadata_with_concurrent_instances": 0.2, "TestGRPCScenario/multiplicity_gt_1": 0.4,
